@@ -27,6 +27,7 @@ Notation db := (db C E P).
 Notation st := (st C E P).
 Notation world := (@world C E P).
 Notation op := (@op C E P).
+Notation evolves := (evolves C E P commit_of eval_of).
 Notation coh := (coh C E P).
 Notation all_clean := (all_clean C E P).
 Notation step := (step C E P commit_of eval_of verify deg_ok valid_eval me L enum delta).
@@ -101,13 +102,13 @@ Proof.
   destruct (handle_events _ _ _ _ _ _ _ _ _ _ _ _ _ _) as [x3| |] eqn:He; simpl in Hrun; try discriminate.
   injection Hrun as <-.
   unfold shift_phases in Hsh. apply shift_all_evolves in Hsh. apply handle_events_evolves in He.
-  pose proof (send_poly_evals_evolves C E P (fst x3) (snd x3)) as Hp.
+  pose proof (send_poly_evals_evolves C E P commit_of eval_of (fst x3) (snd x3)) as Hp.
   assert (Hc0 : coh (upd_db_sync C E P d (fst blk) lch blk, s1)) by (eapply coh_frame; [| | |exact Hc1]; reflexivity).
   assert (Hc3 : coh (send_poly_evals C E P (fst x3), snd x3)).
   { eapply evolves_coh; [exact Hp|]. destruct x3. eapply evolves_coh; [exact He|]. eapply evolves_coh; eassumption. }
   destruct (save_coh C E P enum _ Henum Hc3) as [Hc4 Hcl4]. split; [exact Hc4|]. split; [exact Hcl4|].
   (* the synchronised flag is never cleared inside the transaction *)
-  assert (Hsync : forall a b, evolves C E P a b -> sm_sync (snd a) = true -> sm_sync (snd b) = true).
+  assert (Hsync : forall a b, evolves a b -> sm_sync (snd a) = true -> sm_sync (snd b) = true).
   { induction 1 as [|a b c Hpr _ IH]; intros Ha; [exact Ha|]. apply IH. destruct Hpr; simpl in *; exact Ha. }
   simpl. exact (Hsync _ _ He (Hsync _ _ Hsh Hs1)).
 Qed.
